@@ -3,6 +3,8 @@
 //!   line <text>                 line_to_cmds -> per segment parse_line, is_arithmetic, the real
 //!                               do_expansion, the real CommandLine::from_line, and the first-word
 //!                               look-ups of run_proc / run_pipeline (emulated WITHOUT forking, see fw())
+//!   alias <line> <name> <value> ...   shell::expand_alias on parse_line(line) under that alias table
+//!   (line also takes <name> <value> pairs after the text: the aliases of the shell that plans it)
 //!   redir / fromtok <tag> <word> ...   tokens_to_redirections / Command::from_tokens on a token list
 //!   hl <text>                   <CicadaHighlighter as lineread::Highlighter>::highlight -> ranges
 //!   hlr <start> <tag> <word> <text>   find_token_range_heuristic at an arbitrary byte offset
@@ -159,6 +161,12 @@ fn op(f: &[&str]) -> String {
             let segs = parser_line::line_to_cmds(&line);
             let mut out = format!("segs={}", qlist(&segs));
             let mut sh = Shell::new();
+            // optional alias table: name, value pairs after the line
+            let mut k = 2;
+            while k + 1 < f.len() {
+                sh.add_alias(&dec(f[k]), &dec(f[k + 1]));
+                k += 2;
+            }
             for seg in segs {
                 if seg == ";" || seg == "&&" || seg == "||" {
                     continue;
@@ -188,6 +196,18 @@ fn op(f: &[&str]) -> String {
                 ));
             }
             out
+        }
+        // alias <line> <name> <value> ...: the real expand_alias on the tokens of the line
+        "alias" => {
+            let mut sh = Shell::new();
+            let mut k = 2;
+            while k + 1 < f.len() {
+                sh.add_alias(&dec(f[k]), &dec(f[k + 1]));
+                k += 2;
+            }
+            let mut toks = parser_line::parse_line(&dec(f[1])).tokens;
+            shell::verif_hooks::expand_alias(&sh, &mut toks);
+            tokens_str(&toks)
         }
         "redir" => match parser_line::tokens_to_redirections(&tokens_of_fields(&f[1..])) {
             Ok((t, r)) => format!("R(tokens={},redirs={})", tokens_str(&t), redirs_str(&r)),
